@@ -427,6 +427,36 @@ func genConsts() string {
 		rel := "agent/websockets/connection.go"
 		env := collectConsts(parseFile(rel))
 		fmt.Fprintf(&sb, "def websockets_stripHeaderNames : List Bytes := %s\n", leanBytesList(mapKeys(env, "stripHeaderNames", rel, true)))
+		// the writer goroutine of NewConnection: does it skip nil messages before using them?
+		// (SendClientMessage queues a nil message for `[x]` with a non-string x.)
+		{
+			f := parseFile(rel)
+			nc := mustFunc(f, rel, "", "NewConnection")
+			skips, uses := false, false
+			ast.Inspect(nc, func(n ast.Node) bool {
+				cc, ok := n.(*ast.CommClause)
+				if !ok || cc.Comm == nil || !strings.Contains(src(cc.Comm), "<-clientMessages") {
+					return true
+				}
+				for _, st := range cc.Body {
+					txt := src(st)
+					if is, ok := st.(*ast.IfStmt); ok && strings.Contains(src(is.Cond), "== nil") && strings.Contains(src(is.Body), "continue") && !uses {
+						skips = true
+					}
+					if strings.Contains(txt, "clientMsg.Type") || strings.Contains(txt, "clientMsg.Data") {
+						uses = true
+					}
+				}
+				return true
+			})
+			if !uses {
+				fail("%s: writer goroutine of NewConnection not recognised", rel)
+			}
+			fmt.Fprintf(&sb, "def websockets_writerSkipsNil : Bool := %v  -- %s: `if clientMsg == nil { continue }` precedes every use of the received message\n", skips, rel)
+			sc := mustFunc(f, rel, "Connection", "SendClientMessage")
+			// can SendClientMessage queue a nil message? (the one-element-array branch without a string element falls through)
+			fmt.Fprintf(&sb, "def websockets_sendMayQueueNil : Bool := %v  -- %s: the `[x]` branch leaves clientMessage nil for a non-string x\n", strings.Contains(src(sc), "blobMsg[0].(string); ok {") && !strings.Contains(src(sc), "clientMessage == nil"), rel)
+		}
 		fmt.Fprintf(&sb, "def websockets_injectedHeadersPath : List Bytes := %s\n", leanBytesList(stringList(env, "websocketShimInjectedHeadersPath", rel)))
 	}
 	// banner
@@ -451,9 +481,47 @@ func genConsts() string {
 		emitInt("store_fieldByteLimit", mustInt(env, "fieldByteLimit", rel), rel)
 		emitInt("store_multiOpSizeLimit", mustInt(env, "multiOpSizeLimit", rel), rel)
 		emitStr("store_sharedBackendUser", mustString(env, "sharedBackendUser", rel), rel)
+		// datastore kind of a backend's requests
+		{
+			f := parseFile(rel)
+			rk := mustFunc(f, rel, "", "requestKind")
+			fmtStr := ""
+			ast.Inspect(rk, func(n ast.Node) bool {
+				if c, ok := n.(*ast.CallExpr); ok && src(c.Fun) == "fmt.Sprintf" && len(c.Args) == 3 {
+					if s0, ok := evalString(env, c.Args[0]); ok && src(c.Args[1]) == "requestKindPrefix" && src(c.Args[2]) == "backendID" {
+						fmtStr = s0
+					}
+				}
+				return true
+			})
+			if fmtStr == "" {
+				fail("%s: requestKind is no longer fmt.Sprintf(<format>, requestKindPrefix, backendID)", rel)
+			}
+			emitStr("store_requestKindFormat", fmtStr, rel+" requestKind")
+		}
 		rel = "app/cache/cache.go"
 		env = collectConsts(parseFile(rel))
 		emitInt("cache_cacheEntrySizeLimit", mustInt(env, "cacheEntrySizeLimit", rel), rel)
+		// memcache key formats: both IDs must be quoted (self-delimiting), or distinct (backend, request) pairs can collide
+		{
+			f := parseFile(rel)
+			for _, kf := range []struct{ fn, lean string }{{"memcacheRequestKey", "cache_requestKeyFormat"}, {"memcacheResponseKey", "cache_responseKeyFormat"}} {
+				fd := mustFunc(f, rel, "", kf.fn)
+				fmtStr := ""
+				ast.Inspect(fd, func(n ast.Node) bool {
+					if c, ok := n.(*ast.CallExpr); ok && src(c.Fun) == "fmt.Sprintf" && len(c.Args) == 3 && src(c.Args[1]) == "backendID" && src(c.Args[2]) == "requestID" {
+						if s0, ok := evalString(env, c.Args[0]); ok {
+							fmtStr = s0
+						}
+					}
+					return true
+				})
+				if fmtStr == "" {
+					fail("%s: %s is no longer fmt.Sprintf(<format>, backendID, requestID)", rel, kf.fn)
+				}
+				emitStr(kf.lean, fmtStr, rel+" "+kf.fn)
+			}
+		}
 		rel = "app/proxy.go"
 		env = collectConsts(parseFile(rel))
 		emitInt("app_requestsWaitTimeout", mustInt(env, "requestsWaitTimeout", rel), rel+" (ns)")
